@@ -32,7 +32,10 @@ def run_variant(args):
         mod, ctx = analyse(prop, root, "quick", sources={module: src2})
     except Exception as ex:  # pragma: no cover
         return ("error", [f"{type(ex).__name__}: {ex}"], [])
-    viol = [(r.rule, r.func, r.construct[:120]) for r in ctx.results if r.status == VIOLATION]
+    from .core import load_known
+    # findings recorded as open are reported on the unchanged tree too: a variant is judged by what it adds to them
+    known = {(k.get("rule"), k.get("function"), " ".join(k.get("construct", "").split())) for k in load_known() if k.get("property") == prop and k.get("status") == "open"}
+    viol = [(r.rule, r.func, r.construct[:120]) for r in ctx.results if r.status == VIOLATION and (r.rule, r.func, r.construct) not in known]
     unk = [(r.rule, r.func, r.construct[:120], r.msg[:120]) for r in ctx.results if r.status == UNKNOWN]
     return ("ok", viol, unk)
 
